@@ -152,11 +152,42 @@ def harness(tier, seed):
                 if v != want or not (obj.lower_bound() <= v <= obj.upper_bound()):
                     viol.append(("objective/value", {**info, "x": list(p)}, f"evaluate={v} sum={want}"))
                     break
+    # ---- the bundled QAPLIB resources as loaded by from_resource: value == flow-distance sum and within the instance's bounds
+    # for the identity, the reversed and a random permutation (thorough: five random ones)
+    names = list(Instance.list_resources())
+    for nm in names:
+        try:
+            inst = Instance.from_resource(nm)
+        except Exception as ex:     # noqa: BLE001
+            viol.append(("resource/raises", {"instance": nm}, repr(ex)))
+            continue
+        n = inst.n
+        F_, D_ = np.array(inst.flows).astype(np.int64), np.array(inst.distances).astype(np.int64)
+        obj = QAPObjective(inst)
+        lo, hi = obj.lower_bound(), obj.upper_bound()
+        perms_ = [list(range(n)), list(range(n - 1, -1, -1))]
+        for _k in range(1 if tier == "quick" else 5):
+            q = list(range(n))
+            rng.shuffle(q)
+            perms_.append(q)
+        for p in perms_:
+            pa = np.array(p)
+            want = int((F_ * D_[np.ix_(pa, pa)]).sum())
+            v = int(obj.evaluate(pa))
+            evals += 1
+            if v != want:
+                viol.append(("resource/objective-value", {"instance": nm, "x": p}, f"evaluate={v} sum={want}"))
+                break
+            if not (lo <= v <= hi and inst.lower_bound <= v <= inst.upper_bound):
+                viol.append(("resource/objective-outside-bounds", {"instance": nm, "x": p},
+                             f"{v} not in [{lo}, {hi}] / instance bounds [{inst.lower_bound}, {inst.upper_bound}]"))
+                break
     seen = set()
     viol = [v for v in viol if not (v[0] in seen or seen.add(v[0]))]
     return {"name": "qap", "evaluations": evals, "distinct_nontrivial": len(distinct),
             "rule": "random matrices n <= 6 (values up to 10^6) and n in 127..257 (storage-type boundaries, sampled permutations) serialised as QAPLIB text with classic, single-line and random "
                     "wrapping (blank lines, lines straddling the flows/distances boundary); parsed instance equals the "
                     "matrices; all n! permutations: value == sum f*d and within [lower, upper]; narrow input dtypes; degenerate pairs "
-                    "(one matrix all zero, valid user bounds below a non-contributing entry); distinct = distinct texts",
+                    "(one matrix all zero, valid user bounds below a non-contributing entry); all 134 bundled resources with three "
+                    "permutations each (value and bounds); distinct = distinct texts",
             "samples": samples, "violations": viol, "exhaustive": False}
